@@ -362,7 +362,8 @@ CHECKS["C15"] = dict(
 
 CHECKS["C08"] = dict(
     pkg="c08", level="exploration",
-    props=[dict(name="TestPropToldOfForeignChanges", quick=480, thorough=16 * 8000, shards_quick=12, shards_thorough=16, timeout_quick=900, timeout_thorough=7200)],
+    props=[dict(name="TestPropToldOfForeignChanges", quick=480, thorough=16 * 8000, shards_quick=12, shards_thorough=16, timeout_quick=900, timeout_thorough=7200),
+           dict(name="TestEnumBurstWhileClientBusy", rapid=False, quick=1, thorough=1)],
     rule="a real instance plus client.NewManager for a harness-defined node type Probe (description, value, string slice, map, "
          "edge fields, child list probeKid) whose instrumented client records every Points/EdgePoints callback; tree: P "
          "under the root with two probeKid children, a grandchild, and an unrelated sibling; in a third of the cases P is "
